@@ -144,8 +144,19 @@ def func_canon(prog, an, f):
         else:
             reads.add((root, kind, data))
     out["reads"] = reads
-    out["callees"] = frozenset(i["callee"][1] for i in f.all_insts()
-                               if i["op"] == "call" and i["callee"][0] == "f" and prog.resolve(f.unit, i["callee"][1]) is not None)
+    # helpers used, transitively: `four-way = two-way twice` in one configuration and the two-way helper called
+    # directly in another use the same helper
+    clo, work = set(), [f]
+    while work:
+        g = work.pop()
+        for i in g.all_insts():
+            if i["op"] == "call" and i["callee"][0] == "f":
+                h = prog.resolve(g.unit, i["callee"][1])
+                if h is not None and h.name not in clo:
+                    clo.add(h.name)
+                    if not h.decl:
+                        work.append(h)
+    out["callees"] = frozenset(clo)
     return out
 
 
